@@ -567,6 +567,19 @@ def memo_uses(model, rep, cl):
     C = model.CACHE
     A, p = model.A, model.p
     allowed_writers = {model.f_init.qualname, model.f_v4init.qualname, model.f_anon.qualname, model.f_fwd.qualname, model.f_inv.qualname}
+    # helper methods (inlined into their callers) may write the memo on behalf of an allowed writer
+    helpers = model.ctx.helpers
+    callers = {}
+    for cs in model.G.sites:
+        for g in cs.funcs():
+            callers.setdefault(g.qualname, set()).add(cs.owner.qualname)
+    changed = True
+    while changed:
+        changed = False
+        for h in helpers:
+            if h not in allowed_writers and callers.get(h) and callers[h] <= allowed_writers:
+                allowed_writers.add(h)
+                changed = True
     uses = []
     for f in p.all_functions():
         fp = A.paths(f)
